@@ -694,6 +694,7 @@ pub fn prop() -> Prop {
         ],
         post: None,
         watchdog_s: 120,
+        hang_is_violation: false,
         shrink_iters: 800,
     }
 }
